@@ -641,7 +641,8 @@ Section SendProofs.
         intros _. split; [assumption|]. rewrite A4, app_length, Eb1. reflexivity.
       - destruct Hfut as (Ef1 & Eh1 & Eb1 & Es1). rewrite Ef1. destruct Hso as (Hnb & Hte & Hcl).
         assert (Hh : has_header s_transfer_encoding (r0_headers r) = false) by (apply has_header_false; assumption).
-        rewrite Hh. cbn [negb]. rewrite Eh1.
+        assert (Hh2 : has_header s_content_length (r0_headers r) = false) by (apply has_header_false; assumption).
+        rewrite Hh, Hh2. cbn [negb andb]. rewrite Eh1.
         split; [rewrite <- Eh1; assumption|]. split; [discriminate|].
         split; [intros _; rewrite Es1; repeat split; assumption|]. split; [assumption|]. intros _. rewrite Es1. assumption.
       - rewrite Hfut.
@@ -1150,7 +1151,7 @@ Proof.
     split; [constructor; assumption|]. split; [assumption|]. split; assumption.
 Qed.
 
-(** every history of the correspondence run whose fourth [h1w.expect] field is 1: up to and including the first
+(** every history of the correspondence run whose fifth [h1w.expect] field is 1: up to and including the first
     answer that is a stream of unknown length it is an instance of [closing_history_lemma] (what is sent
     after that is not answered: [closed_is_silent_lemma]) *)
 Lemma checked_closing_history_lemma cfg reqs n :
@@ -1240,7 +1241,7 @@ Definition w_pair (snd_ : N -> reply0 -> outcome sent) (r : reply0) : bytes :=
 Definition w_send := send hardcoded_error_body (fun h => h).
 Definition w_send_v0 := send_v0 hardcoded_error_body (fun h => h).
 
-(** a handler that answers 204 with a body: before the repair 85bf4a8 the body was written and the strict
+(** a handler that answers 204 with a body: before the repair b4638db the body was written and the strict
     client lost the framing; now it is dropped *)
 Definition w_204 : reply0 := mkR0 11 204 [] (B "oops") (Some None) None.
 Lemma bodyless_with_body_witness :
@@ -1259,7 +1260,7 @@ Lemma head_stream_v0_witness :
     = Some [(200, []); (200, B "hello world")].
 Proof. vm_compute. split; reflexivity. Qed.
 
-(** a stream of unknown length: before the repair 7d5ef9e it went out without a length on a connection
+(** a stream of unknown length: before the repair feabc71 it went out without a length on a connection
     announced and kept as keep-alive - no client can tell where it ends; now the head says close and the
     server closes after it *)
 Definition w_nolen : reply0 :=
@@ -1273,7 +1274,7 @@ Lemma unframed_stream_v0_witness :
 Proof. split; eexists; (split; [vm_compute; reflexivity|]); vm_compute; repeat split. Qed.
 
 (** a reply that carries [transfer-encoding] (a reverse proxy passing on its upstream's header): before the
-    repair ba3ae72 it went out beside [content-length] *)
+    repair c151144 it went out beside [content-length] *)
 Definition w_te : reply0 :=
   mkR0 11 200 [(B "content-type", B "text/plain"); (B "transfer-encoding", B "chunked")] (B "with te") (Some None) None.
 Lemma te_with_length_v0_witness :
